@@ -1,2 +1,3 @@
 -- Root of the VerylModel library: property theorems (which import the models and lemmas).
 import VerylModel.Props.C29
+import VerylModel.Props.C04
